@@ -41,6 +41,11 @@ class SimClock:
 
     perf_counter = monotonic
 
+    def time_ns(self):
+        return int(self.time() * 1e9)
+
+    monotonic_ns = perf_counter_ns = time_ns
+
     def sleep(self, d):
         if d > 0:
             self.advance_to(self.now + d)
